@@ -13,3 +13,7 @@ open Comrak.C10
 #print axioms balanced_tokens_balanced_bytes
 #print axioms html_balanced_bytes_partial
 #print axioms html_footnote_section_once_bytes
+#print axioms html_table_sections
+#print axioms flagged_tokens_balanced_bytes
+#print axioms html_balanced_bytes
+#print axioms html_balanced_bytes_needs_shape
